@@ -5,9 +5,12 @@ using namespace wc;
 #ifndef VK_BYTES
 #define VK_BYTES 6
 #endif
+#ifndef VK_FLOOD
+#define VK_FLOOD 0          // 1: the symbolic bytes are followed by 40 more bytes (more than the receive buffer holds)
+#endif
 
 extern "C" void h_hostile_stream(void) {
-  W* wp = new W(); W& w = *wp;
+  W* wp = new W(); W& w = *wp; w.rx_leniency = ref::L_PID0;
   w.c.connect_property(prop::maximum_packet_size, 32);
   w.start(); w.connect_ok();
   int q = w.publish<qos_e::at_least_once>("t", "Q"); vk::drain();
@@ -15,14 +18,26 @@ extern "C" void h_hostile_stream(void) {
   const pkt_rec* p = w.last_of(ref::PUBLISH); vk_assert(p && p->pid == 1, "PUBLISH with packet id 1 on the wire");
   w.receive();
   // ---- the broker sends arbitrary bytes
-  size_t n = 1 + vk_choose(VK_BYTES); ref::wr o = w.outw(); for (size_t i = 0; i < n; i++) o.u8(vk_sym_u8()); w.commit(o);
-  uint8_t copy[VK_BYTES + 1]; for (size_t i = 0; i < n; i++) copy[i] = w.out[w.out_pos + i];
+  size_t n = 1 + vk_choose(VK_BYTES); ref::wr o = w.outw(); for (size_t i = 0; i < n; i++) o.u8(vk_sym_u8());
+  // optionally the broker keeps sending: 40 more bytes, more than the 32-byte receive buffer holds
+  bool flood = VK_FLOOD; if (flood) { for (int i = 0; i < 40; i++) o.u8(0x00); vk_reach("flood"); }
+  w.commit(o);
+  uint8_t copy[VK_BYTES + 41]; size_t total = n + (flood ? 40 : 0); for (size_t i = 0; i < total; i++) copy[i] = w.out[w.out_pos + i];
   int split = vk_choose(3); if (split && n > (size_t)split) { w.feed(split); vk::drain(); vk_reach("split"); }
   w.feed_all(); vk::drain();
+  if (flood) {
+    // the first packet either fits the client's Maximum Packet Size (32) or must be refused: no read may be left that can never complete
+    ref::rd q = {copy, total, 1, false}; uint32_t rl = q.varint();
+    if (!q.bad && (copy[0] >> 4) != 0 && q.i + rl > 32) {
+      bool closing = false; if (auto* ws = vk::pending_write()) { ref::packet d; closing = ref::decode((const uint8_t*)ws->wdata.data(), ws->wdata.size(), d) == ref::OK && d.type == ref::DISCONNECT && d.rc == 0x81; }
+      vk_assert(closing || !w.connected(), "a packet larger than the client's Maximum Packet Size was not refused with DISCONNECT 0x81");
+      vk_reach("oversize-refused");
+    }
+  }
   // ---- what the bytes mean according to the reference decoder: a sequence of packets from offset 0
   size_t i = 0; bool puback_seen = false; uint8_t puback_rc = 0; bool only_harmless_before = true; bool bad_before = false;
-  while (i < n && !puback_seen) {
-    ref::packet k; int rv = ref::decode(copy + i, n - i, k, ref::L_OMIT_PROPS | ref::L_TRAILING | ref::L_DUP_PROPS);
+  while (i < total && !puback_seen) {
+    ref::packet k; int rv = ref::decode(copy + i, total - i, k, ref::L_OMIT_PROPS | ref::L_TRAILING | ref::L_DUP_PROPS);
     if (rv != ref::OK) { bad_before = (rv == ref::BAD); break; }
     if (k.type == ref::PUBACK && k.pid == 1) { puback_seen = true; puback_rc = k.rc; break; }
     bool harmless = k.type == ref::PINGRESP || ((k.type == ref::PUBACK || k.type == ref::PUBREC || k.type == ref::PUBCOMP || k.type == ref::SUBACK || k.type == ref::UNSUBACK) && k.pid != 1);
